@@ -219,6 +219,10 @@ func (w *renderer) ignored(g glue, next tokKind) {
 		if lay.chance(lay.ExtraSpace) {
 			w.b.WriteString([]string{" ", "  ", "\t", " \t ", "   "}[lay.R.Intn(5)])
 		}
+		if lay.MultiByte && lay.chance(3) {
+			w.b.WriteString("\ufeff") // a BOM is an ignored character anywhere
+			mb = true
+		}
 		if lay.chance(lay.Comments) {
 			w.comment(&mb)
 			if lay.Multiline {
